@@ -378,6 +378,8 @@ class CallModelsMixin:
         unknown = "?" in ty or not ty
         if name in MUT_NAMES and (ty & {"list", "set", "dict", "ndarray"} or unknown):
             self.mutate(recv.pts, node, f".{name}()")
+            pd, _pm = st.pc_dep()
+            self.taint_container(recv, frozenset().union(*[p.all_dep() for p in pos]) | pd if pos else pd, st)
             if name in ("append", "add", "insert") and pos:
                 self.update_elem(recv, pos[-1], st)
                 return NONE
